@@ -59,7 +59,11 @@ struct Tri { unsigned char b[3]; };
 static var Tri = Cello(Tri);
 
 /* ---- Probe: element type with constructor, assignment, destructor, owning heap memory - */
-struct Probe { int64_t token; int64_t val; char* mem; };
+/* 28 bytes: not a multiple of the word size, like a user struct of int members; `tail` is a function of the token, so an
+ * internal move that carries only part of an element (word-wise copy or swap that forgets the last bytes) leaves a torn
+ * element, which every later use of it reports */
+struct __attribute__((packed, aligned(4))) Probe { int64_t token; int64_t val; char* mem; int32_t tail; };
+#define PROBE_TAIL(TOK) ((int32_t)((uint64_t)(TOK) * 2654435761u + 12345u))
 static var Probe;  /* defined after its methods */
 static int64_t next_token = 1, epoch_token = 1, live_count = 0;
 static unsigned char* tok_live = NULL; static int64_t tok_cap = 0;
@@ -75,12 +79,14 @@ static void probe_issue(struct Probe* p) {
     tok_live = realloc(tok_live, nc); memset(tok_live + tok_cap, 0, nc - tok_cap); tok_cap = nc;
   }
   p->token = next_token++;
+  p->tail = PROBE_TAIL(p->token);
   tok_live[p->token] = 1;
   live_count++;
   p->mem = malloc(8);
 }
 static bool probe_tok_ok(struct Probe* p, const char* where) {
   if (p->token < 0 or p->token >= next_token) { inv(where); return false; }
+  if (p->token isnt 0 and p->tail isnt PROBE_TAIL(p->token)) { inv("torn-element (the last bytes belong to another element)"); return false; }
   return true;
 }
 static void Probe_New(var self, var args) {
@@ -115,6 +121,8 @@ static int Probe_Cmp(var self, var obj) {
   struct Probe* p = self;
   struct Probe* q = cast(obj, Probe);
   if (p->token > 0 and p->token < next_token and not tok_live[p->token]) { inv("cmp-finalised"); }
+  if (p->token > 0 and p->token < next_token and p->tail isnt PROBE_TAIL(p->token)) { inv("torn-element (the last bytes belong to another element)"); }
+  if (q->token > 0 and q->token < next_token and q->tail isnt PROBE_TAIL(q->token)) { inv("torn-element (the last bytes belong to another element)"); }
   probe_cmps++;
   return p->val < q->val ? -1 : p->val > q->val;
 }
